@@ -46,6 +46,11 @@ func (e *Engine) intrinsics() map[string]externalFn {
 		sym + ".CallArg":   extSymCallArg,
 		sym + ".Leaked":    func(fr *frame, args []value) value { return fr.i.sch.countLive() },
 		sym + ".Concrete":  extSymConcrete,
+		sym + ".Opaque": func(fr *frame, args []value) value {
+			s, ok := args[0].(string)
+			return ok && strings.Contains(s, phOpen)
+		},
+		sym + ".Prune": func(fr *frame, args []value) value { fr.i.path.prune = args[0].(bool); return nil },
 		sym + ".Cut":       func(fr *frame, args []value) value { fr.i.path.rec.Cuts = append(fr.i.path.rec.Cuts, fr.i.hostString(args[0])); fr.i.path.end("cut", fr.i.hostString(args[0])); return nil },
 
 		// ---- internal/bytealg
